@@ -14,7 +14,7 @@ func (t *ATable) InvokeRenderCallbacks() {
 	invokePropertyCallbacks(t.tableItselfCallbacks, CB_AT_RENDER_PRECELL, t, ec)
 	for i := range t.columns {
 		// by index: the callback must get the column itself, not a copy of it
-		col := &t.columns[i]
+		col := t.columns[i]
 		invokePropertyCallbacks(col.columnItselfCallbacks, CB_AT_RENDER_PRECELL, col, ec)
 	}
 	if t.headerRow != nil {
@@ -24,7 +24,7 @@ func (t *ATable) InvokeRenderCallbacks() {
 		row.invokeRenderCallbacks(t, ec)
 	}
 	for i := range t.columns {
-		col := &t.columns[i]
+		col := t.columns[i]
 		invokePropertyCallbacks(col.columnItselfCallbacks, CB_AT_RENDER_POSTCELL, col, ec)
 	}
 	invokePropertyCallbacks(t.tableItselfCallbacks, CB_AT_RENDER_POSTCELL, t, ec)
